@@ -161,11 +161,13 @@ structure Slot where
   ghost : List Bytes := []
   deriving Repr
 
-/-- `TCPCoalescer` / `UDPCoalescer` (without `w`, `pool`, `l`). -/
+/-- `TCPCoalescer` / `UDPCoalescer` (without `w`, `l`). `pool` is the free list of recycled slot
+objects: `release` pushes at the end, `take` pops from the end. -/
 structure Lane where
   slots : List Slot := []
   openSlots : List (FlowKey × Nat) := []
   lastSlot : Option Nat := none
+  pool : List Slot := []
   deriving Repr
 
 /-- `parsedTCP` / `parsedUDP` -/
@@ -234,9 +236,25 @@ def Lane.sealFlow (c : Lane) (fk : FlowKey) : Lane :=
     | none => none
   { c with lastSlot := last, openSlots := omErase c.openSlots fk }
 
+/-- `take`: a recycled slot object if the pool has one (whatever it still contains), else a fresh
+zero-valued one. -/
+def Lane.take (c : Lane) : Slot × Lane :=
+  match c.pool.getLast? with
+  | some s => (s, { c with pool := c.pool.dropLast })
+  | none => ({}, c)
+
+/-- `release`: `clear(s.payIovs); *s = coalesceSlot{payIovs: s.payIovs[:0]}` — every field back to its
+zero value (the retained `payIovs` backing array has length 0 and cleared elements). -/
+def release (_s : Slot) : Slot := {}
+
+/-- the tail of `addVerbatim`: only `verbatim` and `rawPkt` of the taken slot object are assigned. -/
+def Lane.pushVerbatim (c : Lane) (blank : Slot) (pkt : Bytes) : Lane :=
+  { c with slots := c.slots ++ [{ blank with verbatim := true, rawPkt := pkt, ghost := [pkt] }] }
+
 /-- `addVerbatim` -/
 def Lane.addVerbatim (c : Lane) (pkt : Bytes) : Lane :=
-  { c with slots := c.slots ++ [{ verbatim := true, rawPkt := pkt, ghost := [pkt] }] }
+  let (s, c) := c.take
+  c.pushVerbatim s pkt
 
 /-- TCP flag predicates on the flags byte (`tcpFlagPsh = 0x08`, `tcpFlagAck = 0x10`, `tcpFlagEce = 0x40`). -/
 def hasPsh (f : Nat) : Bool := f / batch_tcpFlagPsh % 2 = 1
@@ -252,17 +270,32 @@ def seedSlot (tcp : Bool) (pkt : Bytes) (info : Parsed) : Slot :=
     nextSeq := if tcp then (info.seq + info.payLen) % 4294967296 else 0
     payIovs := [slice pkt info.hdrLen (info.hdrLen + info.payLen)], ghost := [pkt] }
 
+/-- the slot `seed` creates *in a taken slot object*: `seed` assigns every field (`verbatim`, `rawPkt`,
+`hdrLen`, `ipHdrLen`, `isV6`, `fk`, `gsoSize`, `numSeg`, `totalPay`, `nextSeq` (TCP), and
+`payIovs = append(s.payIovs[:0], …)`), so nothing of the recycled object survives. -/
+def seedSlotFrom (blank : Slot) (tcp : Bool) (pkt : Bytes) (info : Parsed) : Slot :=
+  { blank with
+    verbatim := false, rawPkt := pkt, hdrLen := info.hdrLen, ipHdrLen := info.ipHdrLen,
+    isV6 := info.fk.isV6, fk := info.fk, gsoSize := info.payLen, numSeg := 1, totalPay := info.payLen,
+    nextSeq := if tcp then (info.seq + info.payLen) % 4294967296 else 0
+    payIovs := [slice pkt info.hdrLen (info.hdrLen + info.payLen)], ghost := [pkt] }
+
+/-- the part of `seed` after `s := c.take()` -/
+def Lane.seedTaken (tcp : Bool) (c : Lane) (blank : Slot) (pkt : Bytes) (info : Parsed) : Lane :=
+  let i := c.slots.length
+  let c := { c with slots := c.slots ++ [seedSlotFrom blank tcp pkt info] }
+  if tcp ∧ hasPsh info.flags then
+    c.sealFlow info.fk
+  else
+    { c with openSlots := omInsert c.openSlots info.fk i, lastSlot := some i }
+
 /-- `seed` -/
 def Lane.seed (tcp : Bool) (c : Lane) (pkt : Bytes) (info : Parsed) : Lane :=
   if info.hdrLen + info.payLen > (if tcp then batch_tcpCoalesceBufSize else batch_udpCoalesceBufSize) then
     (c.sealFlow info.fk).addVerbatim pkt
   else
-    let i := c.slots.length
-    let c := { c with slots := c.slots ++ [seedSlot tcp pkt info] }
-    if tcp ∧ hasPsh info.flags then
-      c.sealFlow info.fk
-    else
-      { c with openSlots := omInsert c.openSlots info.fk i, lastSlot := some i }
+    let (s, c) := c.take
+    c.seedTaken tcp s pkt info
 
 /-- `udpHeadersMatch` / `headersMatch` -/
 def headersMatch (tcp : Bool) (a b : Bytes) (isV6 : Bool) (ipHdrLen : Nat) : Bool :=
@@ -397,11 +430,224 @@ def dispatchAll (tso uso : Bool) (sorted : List Staged) : Multi :=
 def Multi.flush (m : Multi) : List Wr :=
   m.tcp.flush true ++ m.udp.flush false ++ m.pt.map Wr.write
 
+/-- `TCPCoalescer.Flush` / `UDPCoalescer.Flush` including the recycling: the writes, and the lane as it
+is left for the next batch (no slots, no open chains, every slot object released into the pool). -/
+def Lane.flushP (tcp : Bool) (c : Lane) : List Wr × Lane :=
+  (c.flush tcp, { slots := [], openSlots := [], lastSlot := none, pool := c.pool ++ c.slots.map release })
+
+/-- `MultiCoalescer.Flush` after the sort and replay: the writes and the coalescer left for the next batch. -/
+def Multi.flushP (m : Multi) : List Wr × Multi :=
+  (m.flush, { m with tcp := (m.tcp.flushP true).2, udp := (m.udp.flushP false).2, pt := [] })
+
+/-- one `Commit`* ; `Flush` round on a coalescer that has been used before -/
+def Multi.round (m : Multi) (staged : List Staged) : List Wr × Multi :=
+  ((staged.mergeSort stagedLe).foldl Multi.dispatch m).flushP
+
+/-- a coalescer's life: successive batches through the same instance; the writes of every `Flush`. -/
+def Multi.rounds (m : Multi) : List (List Staged) → List (List Wr)
+  | [] => []
+  | b :: rest => (m.round b).1 :: (m.round b).2.rounds rest
+
 /-- `Commit`* then `Flush`. `slices.SortFunc` is not stable; the model uses a stable merge sort, which
 agrees with it whenever the `(epoch, counter)` keys are distinct (they are: one counter per packet per
 tunnel). The theorems of C23 quantify over *every* dispatch order / every sorted permutation, so they
 do not depend on this. -/
 def flushBatch (tso uso : Bool) (staged : List Staged) : List Wr :=
   (dispatchAll tso uso (staged.mergeSort stagedLe)).flush
+
+/-! ### Go run-time panics
+
+Every slice expression `b[lo:hi]` / index `b[i]` of the Go code is a potential `panic: runtime error:
+slice bounds out of range` / `index out of range`. The `…C` ("checked") functions below walk the same
+control flow as the functions above and, at each place where the Go code slices or indexes, demand the
+bound Go demands (with `cap = len`, the strictest reading) — returning `Except.error` with the offending
+expression if it does not hold — and otherwise return what the unchecked function returns. `no_panic`
+(Props/C23) proves that the error case never happens; the driver runs the checked functions, so a missing
+guard would also show up as a model answer `PANIC …`. -/
+
+abbrev Chk := Except String
+
+/-- continue with `k` if the bound `c` holds, else panic -/
+def chk {α} (c : Bool) (what : String) (k : Chk α) : Chk α := if c then k else .error what
+
+/-- `parseIPv4Prologue`: `pkt[0]`, `pkt[6:8]`, `pkt[2:4]`, `pkt[12:16]`, `pkt[16:20]`, `pkt[:totalLen]` -/
+def parseIPv4PrologueC (pkt : Bytes) : Chk (Option IPParse) :=
+  chk (0 < pkt.length) "pkt[0]" <|
+  if (byteAt pkt 0 % 16) * 4 ≠ 20 then .ok none else
+  chk (8 ≤ pkt.length) "pkt[6:8]" <|
+  if u16At pkt 6 % 16384 ≠ 0 then .ok none else
+  chk (4 ≤ pkt.length) "pkt[2:4]" <|
+  if u16At pkt 2 > pkt.length ∨ u16At pkt 2 < (byteAt pkt 0 % 16) * 4 then .ok none else
+  chk (16 ≤ pkt.length) "pkt[12:16]" <|
+  chk (20 ≤ pkt.length) "pkt[16:20]" <|
+  chk (u16At pkt 2 ≤ pkt.length) "pkt[:totalLen]" <|
+  .ok (parseIPv4Prologue pkt)
+
+/-- `parseIPv6Prologue`: `pkt[4:6]`, `pkt[8:24]`, `pkt[24:40]`, `pkt[:40+payloadLen]` -/
+def parseIPv6PrologueC (pkt : Bytes) : Chk (Option IPParse) :=
+  chk (6 ≤ pkt.length) "pkt[4:6]" <|
+  if 40 + u16At pkt 4 > pkt.length then .ok none else
+  chk (24 ≤ pkt.length) "pkt[8:24]" <|
+  chk (40 ≤ pkt.length) "pkt[24:40]" <|
+  chk (40 + u16At pkt 4 ≤ pkt.length) "pkt[:40+payloadLen]" <|
+  .ok (parseIPv6Prologue pkt)
+
+/-- `parseIPAt`: `pkt[0]` after the `len(pkt) < 20` guard -/
+def parseIPAtC (pkt : Bytes) (ipHdrLen : Nat) : Chk (Option IPParse) :=
+  if pkt.length < 20 then .ok none else
+  chk (0 < pkt.length) "pkt[0]" <|
+  if byteAt pkt 0 / 16 = 4 then
+    if ipHdrLen ≠ 20 then .ok none else parseIPv4PrologueC pkt
+  else if byteAt pkt 0 / 16 = 6 then
+    if ipHdrLen ≠ 40 ∨ pkt.length < 40 then .ok none else parseIPv6PrologueC pkt
+  else .ok none
+
+/-- `parsedUDP.parseTail`: `pkt[ipHdrLen+4:ipHdrLen+6]`, `pkt[ipHdrLen:ipHdrLen+2]`, `pkt[ipHdrLen+2:ipHdrLen+4]` -/
+def parseTailUDPC (ip : IPParse) (ipHdrLen : Nat) : Chk (Option Parsed) :=
+  let pkt := ip.trimmed
+  if pkt.length < ipHdrLen + 8 then .ok none else
+  chk (ipHdrLen + 6 ≤ pkt.length) "pkt[ipHdrLen+4:ipHdrLen+6]" <|
+  if u16At pkt (ipHdrLen + 4) < 8 ∨ u16At pkt (ipHdrLen + 4) ≠ pkt.length - ipHdrLen then .ok none else
+  chk (ipHdrLen + 4 ≤ pkt.length) "pkt[ipHdrLen:ipHdrLen+4]" <|
+  .ok (parseTailUDP ip ipHdrLen)
+
+/-- `parsedTCP.parseTail`: `pkt[ipHdrLen+12]`, ports, `pkt[ipHdrLen+4:ipHdrLen+8]`, `pkt[ipHdrLen+13]` -/
+def parseTailTCPC (ip : IPParse) (ipHdrLen : Nat) : Chk (Option Parsed) :=
+  let pkt := ip.trimmed
+  if pkt.length < ipHdrLen + 20 then .ok none else
+  chk (ipHdrLen + 12 < pkt.length) "pkt[ipHdrLen+12]" <|
+  let tcpOff := (byteAt pkt (ipHdrLen + 12) / 16) * 4
+  if tcpOff < 20 ∨ tcpOff > 60 then .ok none else
+  if pkt.length < ipHdrLen + tcpOff then .ok none else
+  chk (ipHdrLen + 8 ≤ pkt.length) "pkt[ipHdrLen:ipHdrLen+8]" <|
+  chk (ipHdrLen + 13 < pkt.length) "pkt[ipHdrLen+13]" <|
+  .ok (parseTailTCP ip ipHdrLen)
+
+/-- `parseAt` -/
+def parseAtC (tcp : Bool) (pkt : Bytes) (ipHdrLen : Nat) : Chk (Option Parsed) :=
+  match parseIPAtC pkt ipHdrLen with
+  | .error e => .error e
+  | .ok none => .ok none
+  | .ok (some ip) => if tcp then parseTailTCPC ip ipHdrLen else parseTailUDPC ip ipHdrLen
+
+/-- `canAppend`, in evaluation order: `s.rawPkt[s.ipHdrLen+13]` (TCP), `ipv4CanCoalesceID` (`seedHdr[6]`,
+`seedHdr[4:6]`, `nextHdr[4:6]`), `s.rawPkt[:s.hdrLen]`, `pkt[:info.hdrLen]`, then inside `headersMatch` /
+`ipHeadersMatch` the slices of both prefixes. -/
+def canAppendC (tcp : Bool) (s : Slot) (pkt : Bytes) (info : Parsed) : Chk Bool :=
+  if info.hdrLen ≠ s.hdrLen then .ok false else
+  if tcp ∧ info.seq ≠ s.nextSeq then .ok false else
+  if s.numSeg ≥ (if tcp then batch_tcpCoalesceMaxSegs else batch_udpCoalesceMaxSegs) then .ok false else
+  if info.payLen > s.gsoSize then .ok false else
+  if s.hdrLen + s.totalPay + info.payLen > (if tcp then batch_tcpCoalesceBufSize else batch_udpCoalesceBufSize) then .ok false else
+  chk (!tcp || s.ipHdrLen + 13 < s.rawPkt.length) "s.rawPkt[s.ipHdrLen+13]" <|
+  if tcp ∧ hasEce (byteAt s.rawPkt (s.ipHdrLen + 13)) ≠ hasEce info.flags then .ok false else
+  chk (s.isV6 || (6 < s.rawPkt.length)) "seedHdr[6]" <|
+  chk (s.isV6 || byteAt s.rawPkt 6 / batch_ipv4FlagDF % 2 = 1 || (6 ≤ s.rawPkt.length && 6 ≤ pkt.length))
+    "seedHdr[4:6] / nextHdr[4:6]" <|
+  if !s.isV6 ∧ !ipv4CanCoalesceID s.rawPkt pkt s.numSeg then .ok false else
+  chk (s.hdrLen ≤ s.rawPkt.length) "s.rawPkt[:s.hdrLen]" <|
+  chk (info.hdrLen ≤ pkt.length) "pkt[:info.hdrLen]" <|
+  -- headersMatch(a, b, …) with len(a) = len(b) = hdrLen from here on
+  chk (if s.isV6 then 40 ≤ s.hdrLen else 20 ≤ s.hdrLen) "ipHeadersMatch: a[6:40] / a[12:20]" <|
+  chk (if tcp then s.ipHdrLen + 18 ≤ s.hdrLen else s.ipHdrLen + 4 ≤ s.hdrLen) "headersMatch: a[tcp+18:] / a[udp:udp+4]" <|
+  .ok (canAppend tcp s pkt info)
+
+/-- `appendPayload`: `pkt[info.hdrLen:info.hdrLen+info.payLen]`, `s.rawPkt[s.ipHdrLen+13] |= …` -/
+def appendPayloadC (tcp : Bool) (s : Slot) (pkt : Bytes) (info : Parsed) : Chk (Slot × Bool) :=
+  chk (info.hdrLen + info.payLen ≤ pkt.length) "pkt[info.hdrLen:info.hdrLen+info.payLen]" <|
+  chk (!(tcp && hasPsh info.flags) || s.ipHdrLen + 13 < s.rawPkt.length) "s.rawPkt[s.ipHdrLen+13]" <|
+  .ok (appendPayload tcp s pkt info)
+
+/-- `seed`: `pkt[info.hdrLen:info.hdrLen+info.payLen]` (only on the non-oversize path) -/
+def Lane.seedC (tcp : Bool) (c : Lane) (pkt : Bytes) (info : Parsed) : Chk Lane :=
+  if info.hdrLen + info.payLen > (if tcp then batch_tcpCoalesceBufSize else batch_udpCoalesceBufSize) then
+    .ok (c.seed tcp pkt info)
+  else
+    chk (info.hdrLen + info.payLen ≤ pkt.length) "pkt[info.hdrLen:info.hdrLen+info.payLen]" <|
+    .ok (c.seed tcp pkt info)
+
+/-- `commitParsed` -/
+def Lane.commitParsedC (tcp : Bool) (c : Lane) (pkt : Bytes) (info : Parsed) : Chk Lane :=
+  if tcp ∧ (!hasAck info.flags ∨ hasOther info.flags) then .ok (c.commitParsed tcp pkt info)
+  else if info.payLen = 0 then .ok (c.commitParsed tcp pkt info)
+  else
+    let open_ : Option Nat :=
+      match c.lastSlot with
+      | some i => if c.slotFk i = some info.fk then some i else omLookup c.openSlots info.fk
+      | none => omLookup c.openSlots info.fk
+    match open_ with
+    | some i =>
+      match c.slots[i]? with
+      | some s =>
+        match canAppendC tcp s pkt info with
+        | .error e => .error e
+        | .ok true =>
+          match appendPayloadC tcp s pkt info with
+          | .error e => .error e
+          | .ok _ => .ok (c.commitParsed tcp pkt info)
+        | .ok false =>
+          match (c.sealFlow info.fk).seedC tcp pkt info with
+          | .error e => .error e
+          | .ok _ => .ok (c.commitParsed tcp pkt info)
+      | none => .error "nil slot pointer"
+    | none =>
+      match c.seedC tcp pkt info with
+      | .error e => .error e
+      | .ok _ => .ok (c.commitParsed tcp pkt info)
+
+/-- `commitStaged` -/
+def Lane.commitStagedC (tcp : Bool) (c : Lane) (sp : Staged) : Chk Lane :=
+  if sp.fragAny then .ok (c.commitStaged tcp sp) else
+  match parseAtC tcp sp.pkt sp.ipHdrLen with
+  | .error e => .error e
+  | .ok none => .ok (c.commitStaged tcp sp)
+  | .ok (some info) => c.commitParsedC tcp sp.pkt info
+
+/-- `flushSlot`: `s.rawPkt[:s.hdrLen]`, the header patches (`hdr[4:6]` | `hdr[2:4]`, `hdr[10]`, `hdr[11]`,
+`hdr[10:12]`, `hdr[:s.ipHdrLen]`), `hdr[s.ipHdrLen+4:s.ipHdrLen+6]` (UDP), the pseudo-header address slices,
+`hdr[csumOff:csumOff+2]`, `hdr[:s.ipHdrLen]`, `hdr[s.ipHdrLen:]`. -/
+def flushSlotC (tcp : Bool) (s : Slot) : Chk Wr :=
+  chk (s.hdrLen ≤ s.rawPkt.length) "s.rawPkt[:s.hdrLen]" <|
+  chk (if s.isV6 then 6 ≤ s.hdrLen else 12 ≤ s.hdrLen ∧ s.ipHdrLen ≤ s.hdrLen) "hdr[4:6] | hdr[2:4], hdr[10:12], hdr[:ipHdrLen]" <|
+  chk (tcp || s.ipHdrLen + 6 ≤ s.hdrLen) "hdr[ipHdrLen+4:ipHdrLen+6]" <|
+  chk (if s.isV6 then 40 ≤ s.hdrLen else 20 ≤ s.hdrLen) "hdr[8:24], hdr[24:40] | hdr[12:16], hdr[16:20]" <|
+  chk ((if tcp then s.ipHdrLen + 18 else s.ipHdrLen + 8) ≤ s.hdrLen) "hdr[csumOff:csumOff+2]" <|
+  chk (s.ipHdrLen ≤ s.hdrLen) "hdr[:ipHdrLen], hdr[ipHdrLen:]" <|
+  .ok (flushSlot tcp s)
+
+/-- one slot at `Flush` -/
+def slotOutC (tcp : Bool) (s : Slot) : Chk Wr :=
+  if s.verbatim ∨ s.numSeg = 1 then .ok (Wr.write s.rawPkt) else flushSlotC tcp s
+
+def Lane.flushC (tcp : Bool) (c : Lane) : Chk (List Wr) := c.slots.mapM (slotOutC tcp)
+
+/-- `dispatch` -/
+def Multi.dispatchC (m : Multi) (sp : Staged) : Chk Multi :=
+  if sp.proto = batch_ipProtoTCP ∧ m.tso then
+    match m.tcp.commitStagedC true sp with
+    | .error e => .error e
+    | .ok _ => .ok (m.dispatch sp)
+  else if sp.proto = batch_ipProtoUDP ∧ m.uso then
+    match m.udp.commitStagedC false sp with
+    | .error e => .error e
+    | .ok _ => .ok (m.dispatch sp)
+  else .ok (m.dispatch sp)
+
+def dispatchAllC (m : Multi) : List Staged → Chk Multi
+  | [] => .ok m
+  | sp :: rest =>
+    match m.dispatchC sp with
+    | .error e => .error e
+    | .ok m' => dispatchAllC m' rest
+
+/-- one `Commit`* ; `Flush` round with every Go bound checked -/
+def Multi.roundC (m : Multi) (staged : List Staged) : Chk (List Wr × Multi) :=
+  match dispatchAllC m (staged.mergeSort stagedLe) with
+  | .error e => .error e
+  | .ok m' =>
+    match m'.tcp.flushC true, m'.udp.flushC false with
+    | .ok a, .ok b => .ok (a ++ b ++ m'.pt.map Wr.write, m'.flushP.2)
+    | .error e, _ => .error e
+    | _, .error e => .error e
 
 end Nebula.Coalesce
